@@ -83,7 +83,9 @@ Print Assumptions C03_unroll_of_wellformed_flat_program_is_identity.
 Theorem C03_wellformed_operation_is_emitted_unchanged check_only fuel stm env s :
   (sdepth stm < fuel)%nat -> Regs env s -> op_ok env stm = true ->
   exists s', visit_stmt check_only [] fuel stm s = Ok ((if check_only then [] else [stm]), s') /\ DE s s'.
-Proof. exact (op_fix check_only fuel stm env s). Qed.
+Proof.
+  intros Hf R Ho. destruct (op_fix check_only fuel stm env s Hf R Ho) as (s' & E & D & _). exists s'. split; assumption.
+Qed.
 Print Assumptions C03_wellformed_operation_is_emitted_unchanged.
 
 (* non-vacuity: a concrete program with every statement kind, nested conditionals included, is well formed; and the
